@@ -21,6 +21,16 @@ func sNum(v int64) Sx         { return L(Sym("n"), v) }
 func sBool(b bool) Sx         { return L(Sym("n"), b) }
 func f32bits(f float32) int64 { return int64(math.Float32bits(f)) }
 
+// The exported switch DebugRWPhelpers makes all four converters PRINT what they did; it must not change what
+// they return (seed C04-18: the debug block shortened long documents in a shallow copy of the message it was
+// about to return).  Every fifth converter call of this harness runs with the switch on (stdout is /dev/null).
+var dbgCalls int
+
+func dbgTick() {
+	dbgCalls++
+	helpers.DebugRWPhelpers = dbgCalls%5 == 0
+}
+
 // encoder run under recover(); ok=false on panic
 func encSafe(ms []*rwp.OutboundMessage) (lines []string, ok bool) {
 	defer func() {
@@ -28,6 +38,7 @@ func encSafe(ms []*rwp.OutboundMessage) (lines []string, ok bool) {
 			lines, ok = nil, false
 		}
 	}()
+	dbgTick()
 	return helpers.OutboundMessagesToRawPanelASCIIstrings(ms), true
 }
 
@@ -37,6 +48,7 @@ func decSafe(ls []string) (ms []*rwp.OutboundMessage, ok bool) {
 			ms, ok = nil, false
 		}
 	}()
+	dbgTick()
 	return helpers.RawPanelASCIIstringsToOutboundMessages(ls), true
 }
 
